@@ -662,7 +662,10 @@ fn run_seq<C: PCfg>(env: &Env, c: &C, seq: &[Mode], full: bool, st: &mut Stats) 
                 json!({"family":"poseidon","task":env.task,"case":format!("[{seqtag}] generated row {r}")}),
             );
         } else if !ref_ok {
-            mach(&format!("{cfg} [{seqtag}]: generated row {r} rejected by both reference and AIR — harness row builder is wrong"));
+            // generator (or the harness' honest-row builder) produced an invalid row and the
+            // AIR refuses it: consistent, not a C11 matter; no case is derived from this row
+            st.bump("generated row invalid: rejected by reference and by AIR (not a C11 matter)");
+            st.notes.push(format!("{cfg} [{seqtag}]: generated row {r} rejected by both reference and AIR"));
         }
     }
     st.bump(if pass.iter().all(|p| *p) { "base accepted by both" } else { "base rejected by AIR" });
@@ -790,7 +793,7 @@ fn run_cfg<C: PCfg>(env: &Env, c: &C, part: usize, parts: usize) -> Stats {
             break;
         }
         // FULL (every cell of every row) on a spread of sequences, LIGHT on the rest
-        let full = if quick { i % 16 == 0 } else { i % 4 == 0 };
+        let full = if quick { i % 16 == 0 } else { i % 2 == 0 };
         if !run_seq(env, c, seq, full, &mut st) {
             st.notes.push(format!("{}: Air::eval panics on valid rows, configuration dropped after the first trace", c.name()));
             break;
@@ -820,19 +823,19 @@ pub fn tasks(t: &mut Vec<Task>, quick: bool) {
     add(t, P2BbD1W16, parts);
     add(t, P2KbD4W32, parts);
     add(t, P1BbD4W16, parts);
+    add(t, P1BbD1W16, parts);
+    add(t, P2GlD2W8, parts);
+    // width-24 shapes: one task each (sponge modes only; see known_findings: eval panics)
+    add(t, P2BbD4W24, 1);
+    add(t, P2KbD4W24, 1);
+    add(t, P1BbD4W24, 1);
+    add(t, P1KbD4W24, 1);
     if !quick {
-        // width-24 shapes: one task each (sponge modes only)
-        add(t, P2BbD4W24, 1);
-        add(t, P2KbD4W24, 1);
-        add(t, P1BbD4W24, 1);
-        add(t, P1KbD4W24, 1);
         add(t, P2BbD4W32, parts);
         add(t, P2KbD4W16, parts);
         add(t, P2KbD1W16, parts);
         add(t, P2KbD1W32, parts);
-        add(t, P2GlD2W8, parts);
         add(t, P2GlD2W16, parts);
-        add(t, P1BbD1W16, parts);
         add(t, P1KbD4W16, parts);
         add(t, P1KbD1W16, parts);
         add(t, P1GlD2W8, parts);
